@@ -103,6 +103,8 @@ def parseArg (s : String) : Option Arg :=
   | ["name", h] => (bytesOfHex h).map fun b => .tok (.prim (.name b))
   | ["type", c] => (match c.toList with | [c] => some (.tok (.prim (.typeIs c))) | _ => none)
   | ["lit", h] => (bytesOfHex h).map fun b => .tok (.prim (.lit b))
+  -- -fls / -fprint / -fprint0 / -fprintf FILE: actions that write nothing to standard output
+  | ["fout", _] => some (.tok (.prim (.lit [])))
   | ["vp", h] => (bytesOfHex h).map fun b => .tok (.prim (.pathOut b [10]))
   | ["exec", d, ok, cmd, tmpl] => do
     let cmd ← bytesOfHex cmd
@@ -407,7 +409,11 @@ def predC10 (req obs : List String) : Option Bool :=
     let ch ← (ch.dropPrefix? "changed=").bind (·.toString.toNat?)
     match FuModel.Find.RunRef.refRunX r.follow r.roots r.args [] with
     | some (ref, reached) =>
-      pure (FuModel.Pred.C10.pred normDir reached ref.ret st del ch && out == ref.out)
+      -- what the rest of the expression writes depends on the action's truth: true for an entry that
+      -- went, false for one that stayed - a second reference run, told which of the reached paths went
+      let went := (reached.filterMap fun e => e.argv.head?).filter fun p => del.contains (normDir p)
+      let out2 := (FuModel.Find.RunRef.refRunXD r.follow r.roots r.args went).map (·.1.out)
+      pure (FuModel.Pred.C10.pred normDir reached ref.ret st del ch && some out == out2)
     | none => pure (st != 0 && del.isEmpty && ch == 0)
   | _, _ => none
 
